@@ -49,6 +49,10 @@ SYNTH = [
     ('XQ1', 0.0, 0.0, 0, 'GH', 'AF', 'equator'),
     ('XQ2', 0.0, 90.0, 0, 'ID', 'AS', 'equator'),
     ('XQ3', 0.0, -90.0, 0, 'EC', 'SA', 'equator'),
+    # country codes that text readers like to "interpret": Namibia (NA), Norway (NO, a YAML
+    # false), and codes equal to continent codes
+    ('XW1', -22.48, 17.47, 5640, 'NA', 'AF', 'country-code-NA'),
+    ('XW2', -26.5, 18.1, 3500, 'NA', 'AF', 'country-code-NA'),
 ]
 _world_cache: dict | None = None
 
